@@ -146,6 +146,8 @@ def run(ctx):
         if behs:
             ctx.sample({"same_dtype": same, "behaviour": [(e["op"], e["args"]) for e in behs[0]]})
     live_load(ctx, quick, rng)
+    from harness.drivers import growth_utils
+    growth_utils.utils_growth(ctx, quick, rng)
     ctx.put("distinct_nontrivial", int(ctx.coverage.get("evaluations", 0)))
     ctx.put("rule", "TLC model-checks spec/Quantized (context contract as action properties) and emits random behaviours that are stepped "
                     "through the real QuantizedTensorList / DequantizeQuantizedTensorListContext with the abstract state compared after every action")
@@ -153,6 +155,9 @@ def run(ctx):
 
 def replay(ctx, data):
     r = data["replay"]
+    from harness.drivers import growth_utils
+    if growth_utils.replay(ctx, r):
+        return
     bad = replay_behaviour(r["behaviour"], r["same"])
     ctx.add("evaluations")
     if bad:
